@@ -49,10 +49,10 @@ func c20Ops() []c20Op {
 			return func() { w.receiveOn(p[1], w.bots[1], bgp.NewBGPRouteRefreshMessage(1, 0, 1)) }
 		}},
 		{"downA", "fsm", func(w *schedWorld, p []*peer) func() {
-			return func() { w.stateChange(w.bots[0], bgp.BGP_FSM_IDLE, fsmReadFailed) }
+			return func() { w.stateChangeOn(p[0], bgp.BGP_FSM_IDLE, fsmReadFailed) }
 		}},
 		{"estD", "fsm", func(w *schedWorld, p []*peer) func() {
-			return func() { w.stateChange(w.bots[3], bgp.BGP_FSM_ESTABLISHED, fsmOpenMsgNegotiated) }
+			return func() { w.stateChangeOn(p[3], bgp.BGP_FSM_ESTABLISHED, fsmOpenMsgNegotiated) }
 		}},
 		{"softin", "mgmt", mg(func(w *schedWorld) error { return w.s.softResetIn("", bgp.Family(0)) })},
 		{"softout", "mgmt", mg(func(w *schedWorld) error { return w.s.softResetOut("", bgp.Family(0), false) })},
